@@ -13,7 +13,7 @@ pub static C15: C15C = C15C;
 /// pieces whose combinations form the markup-significant sequences
 pub const PIECES: &[&str] = &["a", " ", "-", "--", "]", "]]", ">", "]]>", "?", "?>", "<", "&", "&amp;", "\"", "'", "é"];
 pub const PIECES_QUICK: &[&str] = &["a", "-", "]", ">", "?", "<", "&", "\"", "'"];
-pub const NAMES: &[&str] = &["n", "a:b", "1t", "t t", "xml", "a<b", "a\"b", ""];
+pub const NAMES: &[&str] = &["n", "a:b", "1t", "t t", "xml", "a<b", "a\"b", "", "xmlns:a", "xmlns"];
 
 /// what the DOM reports for the attached document, in the form a re-parse can be compared with
 pub fn content_dump(doc: &xml_dom::XmlDocument) -> String {
